@@ -15,6 +15,7 @@ import ast
 import copy
 
 from .model import AnalysisError
+from .util import method_call, walk_no_nested
 
 
 class Cond:
@@ -95,10 +96,13 @@ class Path:
 
 
 class State:
-    __slots__ = ('env', 'attrs', 'facts', 'conds', 'events')
+    __slots__ = ('env', 'attrs', 'facts', 'conds', 'events', 'kstack')
 
     def __init__(self, env=None, attrs=None, facts=None, conds=None,
-                 events=None):
+                 events=None, kstack=None):
+        # environments of the frames whose loop bodies run at the yields of
+        # a generator being walked (see Enumerator._fuse)
+        self.kstack = kstack if kstack is not None else []
         self.env = env if env is not None else {}
         self.attrs = attrs if attrs is not None else {}
         self.facts = facts if facts is not None else {}
@@ -107,7 +111,11 @@ class State:
 
     def fork(self):
         return State(dict(self.env), dict(self.attrs), dict(self.facts),
-                     list(self.conds), list(self.events))
+                     list(self.conds), list(self.events), list(self.kstack))
+
+
+def node_target_copy(t):
+    return t
 
 
 def is_sym(node):
@@ -697,9 +705,14 @@ class Enumerator:
             isinstance(v, ast.Call) and isinstance(v.func, ast.Name) and \
             v.func.id == 'object' and not v.args
 
-    def _inline_target(self, call):
+    def _inline_target(self, call, gen=False):
         if not isinstance(call, ast.Call):
             return None
+        if gen and self.inline is not None and hasattr(self.inline, 'gen'):
+            callee = self.inline.gen(call, self._stack[-1])
+            if callee is None or callee in self._stack:
+                return None
+            return callee
         if self.closures and isinstance(call.func, ast.Name) and \
                 call.func.id.startswith('SYM_f'):
             d = self.defs.get(call.func.id)
@@ -1579,6 +1592,12 @@ class Enumerator:
         if callee.cls is not None and not callee.is_static:
             if isinstance(call.func, ast.Attribute):
                 bound_self = call.func.value
+            elif isinstance(call.func, ast.Name) and args and isinstance(
+                    args[0], ast.Name) and args[0].id in ('self', 'cls'):
+                # Class.function(self, ...) spelled through a bare name
+                bound_self = args[0]
+                args = args[1:]
+                call = ast.Call(func=call.func, args=args, keywords=kws)
             if callee.name == '__init__':
                 return None
             if bound_self is None:
@@ -1821,6 +1840,17 @@ class Enumerator:
                 if des is not None:
                     yield from self.block(des, st, handlers)
                     return
+            upd = self._desugar_update(node.value, st)
+            if upd is not None:
+                yield from self._for(upd, st, handlers)
+                return
+            kd = self.__dict__.get('_kdefs')
+            if kd and isinstance(node.value, ast.Yield) and \
+                    node.value.value is not None and \
+                    len(self._stack) == kd[-1][3] and \
+                    self._stack[-1] is kd[-1][4]:
+                yield from self._yield_to_body(node, st, handlers)
+                return
             if isinstance(node.value, (ast.Yield, ast.YieldFrom)):
                 s = st.fork()
                 v = subst(node.value.value, s.env) if node.value.value \
@@ -2088,6 +2118,144 @@ class Enumerator:
                 b.col_offset = b.end_col_offset = 0
         return new
 
+    # -------------------------------------------------- generator fusion
+    def _fusable(self, node, it0):
+        """`for T in gen(...): BODY` over a generator *function* of the
+        analysed program is walked as the generator's own body with BODY run
+        at each yield.  Needs: no break / continue / return / else in the
+        loop (they would have to unwind the generator), no try in the
+        generator around which the unwinding would matter."""
+        if not isinstance(it0, ast.Call) or node.orelse or \
+                len(self._stack) > self.max_depth:
+            return None
+        g = self._inline_target(it0, gen=True)
+        if g is None or isinstance(g.node, ast.AsyncFunctionDef):
+            return None
+        own = list(walk_no_nested(g.node))
+        if not any(isinstance(n, (ast.Yield, ast.YieldFrom)) for n in own):
+            return None
+        if any(isinstance(n, (ast.Try, ast.With)) for n in own):
+            return None
+        for n in own:
+            # yields must be statements of their own (no value sent back)
+            if isinstance(n, ast.Yield):
+                pass
+        stmts_with_yield = [n for n in own if isinstance(n, ast.Expr)
+                            and isinstance(n.value, (ast.Yield,
+                                                     ast.YieldFrom))]
+        n_y = sum(1 for n in own if isinstance(n, (ast.Yield, ast.YieldFrom)))
+        if n_y != len(stmts_with_yield):
+            return None
+
+        def escapes(stmts, in_loop=False):
+            for b in stmts:
+                if isinstance(b, ast.Return):
+                    return True
+                if isinstance(b, (ast.Break, ast.Continue)) and not in_loop:
+                    return True
+                if isinstance(b, (ast.FunctionDef, ast.AsyncFunctionDef,
+                                  ast.ClassDef)):
+                    continue
+                for f in ('body', 'orelse', 'finalbody'):
+                    sub = getattr(b, f, None)
+                    if isinstance(sub, list) and escapes(
+                            sub, in_loop or isinstance(b, (ast.For,
+                                                           ast.While))):
+                        return True
+                for h in getattr(b, 'handlers', []) or []:
+                    if escapes(h.body, in_loop):
+                        return True
+            return False
+        if escapes(node.body):
+            return None
+        if any(has_call(a) for a in it0.args) or any(
+                has_call(k.value) for k in it0.keywords):
+            return None
+        if self._bind_args(it0, g) is None:
+            return None
+        return g
+
+    def _desugar_update(self, call, st):
+        """`d.update(gen(...))` over a generator function of pairs as the
+        loop `for k, v in gen(...): d[k] = v`."""
+        mc = method_call(call)
+        if not mc or mc[1] != 'update' or len(call.args) != 1 or \
+                call.keywords or not isinstance(call.args[0], ast.Call):
+            return None
+        k = ast.Name(id='_upd_k', ctx=ast.Store())
+        v = ast.Name(id='_upd_v', ctx=ast.Store())
+        loop = ast.For(
+            target=ast.Tuple(elts=[k, v], ctx=ast.Store()),
+            iter=call.args[0],
+            body=[ast.Assign(
+                targets=[ast.Subscript(
+                    value=mc[0], slice=ast.Name(id='_upd_k', ctx=ast.Load()),
+                    ctx=ast.Store())],
+                value=ast.Name(id='_upd_v', ctx=ast.Load()))],
+            orelse=[])
+        for b in ast.walk(loop):
+            if not hasattr(b, 'lineno'):
+                b.lineno = b.end_lineno = call.lineno
+                b.col_offset = b.end_col_offset = 0
+        if self._fusable(loop, subst(loop.iter, st.env)) is None:
+            return None
+        return loop
+
+    def _fuse(self, node, call, callee, st, handlers):
+        env = self._bind_args(call, callee)
+        s0 = st.fork()
+        self._ev(s0, 'call', call, getattr(call, 'lineno', node.lineno),
+                 raw=call)
+        s0.events[-1].sym = 'inlined:' + callee.qual
+        cenv = self.const_env(callee)
+        cenv.update(env)
+        s0.kstack.append(s0.env)
+        s0.env = cenv
+        kd = self.__dict__.setdefault('_kdefs', [])
+        kd.append((node.target, node.body, self._stack[-1],
+                   len(self._stack) + 1, callee))
+        self._stack.append(callee)
+        try:
+            results = list(self.block(callee.node.body, s0, []))
+        finally:
+            self._stack.pop()
+            kd.pop()
+        for s, status in results:
+            s.env = dict(s.kstack.pop())
+            if status[0] == 'raise':
+                yield s, status
+            else:
+                yield s, ('next',)
+
+    def _yield_to_body(self, node, st, handlers):
+        """A yield statement of the generator being fused: run the loop body
+        of the consuming frame on the yielded value."""
+        kd = self._kdefs
+        target, body, caller, depth, callee = kd[-1]
+        line = node.lineno
+        for s, v, rs in self.eval_value(node.value.value, st, handlers):
+            if rs is not None:
+                yield s, rs
+                continue
+            callee_env = s.env
+            s.env = dict(s.kstack[-1])
+            saved = kd.pop()
+            self._stack.append(caller)
+            try:
+                self._assign_target(node_target_copy(target), v, s, line)
+                res = list(self.block(body, s, []))
+            finally:
+                self._stack.pop()
+                kd.append(saved)
+            for s2, st2 in res:
+                if st2[0] == 'raise':
+                    # unwinds through the generator into the consumer
+                    yield s2, st2
+                    continue
+                s2.kstack[-1] = s2.env
+                s2.env = dict(callee_env)
+                yield s2, ('next',)
+
     def _for(self, node, st, handlers):
         line = node.lineno
         mf = self._desugar_map_filter(node)
@@ -2117,6 +2285,10 @@ class Enumerator:
                 node, '_pv_evaluated', False) and (
                     self.inline is not None or self.closures):
             it0 = subst(node.iter, st.env)
+            gen = self._fusable(node, it0)
+            if gen is not None:
+                yield from self._fuse(node, it0, gen, st, handlers)
+                return
             if isinstance(it0, ast.Call) and self._inline_target(
                     it0) is not None and len(self._stack) <= self.max_depth:
                 # the iterable is the result of a helper: evaluate it first
@@ -2132,6 +2304,13 @@ class Enumerator:
                 return
         s0 = st.fork()
         it = subst(node.iter, s0.env)
+        if self.unroll and isinstance(node.iter, (ast.Name, ast.Attribute)) \
+                and isinstance(it, (ast.Tuple, ast.List)) and 0 < len(
+                    it.elts) <= 4 and not any(
+                        isinstance(e, ast.Starred) for e in it.elts):
+            # a constant table (module / class level) spelled by name
+            yield from self._for_unrolled(node, it.elts, st, handlers)
+            return
         if self.unroll and isinstance(it, ast.Name) and it.id.startswith(
                 'SYM_m') and isinstance(self.defs.get(it.id), (
                     ast.List, ast.Tuple)) and 0 < len(
